@@ -105,9 +105,15 @@ def main() -> int:
         S[a].setdefault("properties", {})["zq_nullable_composed"] = {"nullable": True, "description": "composed or null", "allOf": [{"$ref": f"#/components/schemas/{b}"}, {"type": "object", "properties": {"zq_more": {"type": "string"}}}]}
         S[a]["properties"]["zq_nullable_titled"] = {"nullable": True, "title": "Zq Titled Thing", "allOf": [{"type": "object", "properties": {"zq_only": {"type": "integer"}}}]}
         bases.append((f"nullable_allof:{i}", d, feats | {"nullable_allof_multi"}))
+    # an enum listing null that is declared once and processed several times (path-item level, components/parameters, a component schema used by several
+    # parameters and properties), under both enum styles: every use is said the same way in both notations
+    for label_, d_ in docs.shared_enum_param_docs():
+        for le_ in (False, True):
+            bases.append((f"{label_}:{'literal' if le_ else 'enum'}", d_, {"shared_enum_params"}, {"literal_enums": le_}))
     jobs, info = [], {}
-    for bi, (label, d, feats) in enumerate(bases):
-        cfg = {"literal_enums": bi % 4 == 3}
+    for bi, base_ in enumerate(bases):
+        label, d, feats = base_[:3]
+        cfg = base_[3] if len(base_) > 3 else {"literal_enums": bi % 4 == 3}
 
         def add(kind, doc, n_rewritten, **kw):
             j = run.job(doc, want=["tree"], cfg=cfg, **kw)
